@@ -12,7 +12,9 @@ package main
 import (
 	"bytes"
 	"crypto/rand"
+	"crypto/sha512"
 	"fmt"
+	"math"
 	"math/big"
 	"strconv"
 	"strings"
@@ -133,12 +135,40 @@ func cosetOf(repr []byte) string {
 
 type cosets struct {
 	mu   sync.Mutex
-	seen map[string]int
+	seen map[string]int // all generated keys
+	pop  map[string]int // keys from uniformly random private keys only (keygen "random"/"every-priv0", NewKeypair)
+	// which of the two preimages the representative is: w = −A/(1+2r²) equal to the public key
+	// (tweak bit 0 set) or not (clear); counted over NewKeypair outputs and random-tweak keygen cases
+	branch map[string]int
 }
 
-func (c *cosets) add(k string) {
+func (c *cosets) add(k string, uniform bool) {
 	c.mu.Lock()
 	c.seen[k]++
+	if uniform {
+		c.pop[k]++
+	}
+	c.mu.Unlock()
+}
+
+// preimage tells which branch of the inverse map produced repr for pub.
+func (c *cosets) preimage(pop string, pub, repr []byte) {
+	p := p25519
+	r := fromLE(repr)
+	r.Mod(r, new(big.Int).Lsh(big.NewInt(1), 254))
+	den := new(big.Int).Mul(r, r)
+	den.Lsh(den, 1).Add(den, big.NewInt(1)).Mod(den, p)
+	w := new(big.Int).ModInverse(den, p)
+	if w == nil {
+		return
+	}
+	w.Mul(w, bigA).Neg(w).Mod(w, p)
+	k := pop + ":w!=u"
+	if w.Cmp(new(big.Int).Mod(fromLE(pub), p)) == 0 {
+		k = pop + ":w==u"
+	}
+	c.mu.Lock()
+	c.branch[k]++
 	c.mu.Unlock()
 }
 
@@ -184,9 +214,9 @@ func runKeygen(r *vlib.Run, d *vlib.Driver, c kcase, cs *cosets) {
 	var clean, peerPub, s1, s2, s3 [32]byte
 	curve25519.ScalarBaseMult(&clean, arr32(priv))
 	curve25519.ScalarBaseMult(&peerPub, arr32(peer))
-	curve25519.ScalarMult(&s1, arr32(peer), &pub)         //nolint:staticcheck
-	curve25519.ScalarMult(&s2, arr32(peer), &clean)       //nolint:staticcheck
-	curve25519.ScalarMult(&s3, arr32(priv), &peerPub)     //nolint:staticcheck
+	curve25519.ScalarMult(&s1, arr32(peer), &pub)     //nolint:staticcheck
+	curve25519.ScalarMult(&s2, arr32(peer), &clean)   //nolint:staticcheck
+	curve25519.ScalarMult(&s3, arr32(priv), &peerPub) //nolint:staticcheck
 	if s1 != s2 || s1 != s3 {
 		r.Violate("dh-differs-from-clean-key", "impl-oracle",
 			fmt.Sprintf("priv %s peer %s: X25519(peer, dirtyPub)=%x, X25519(peer, cleanPub)=%x, X25519(priv, peerPub)=%x", c.Priv, c.Peer, s1, s2, s3), c)
@@ -226,7 +256,11 @@ func runKeygen(r *vlib.Run, d *vlib.Driver, c kcase, cs *cosets) {
 	}
 	// S5: coset of the generated key
 	co := cosetOf(repr[:])
-	cs.add(co)
+	uniform := c.Tag == "random" || c.Tag == "every-priv0"
+	cs.add(co, uniform)
+	if uniform {
+		cs.preimage("keygen", pub[:], repr[:])
+	}
 	if co == "not-8-torsion" {
 		r.Violate("generated-key-not-on-curve", "impl-oracle",
 			fmt.Sprintf("priv %s: ℓ·EdwardsFlavor(%x) is not an 8-torsion point", c.Priv, repr), c)
@@ -316,7 +350,18 @@ func runNewKeypair(r *vlib.Run, d *vlib.Driver, c kcase, cs *cosets) {
 				r.Violate("newkeypair-repr-not-pub", "impl-oracle",
 					fmt.Sprintf("NewKeypair(true) on tape %s: public %x, representative decodes to %x", c.Tape, kp.Public().Bytes()[:], kp.Representative().ToPublic().Bytes()[:]), c)
 			}
-			cs.add(cosetOf(kp.Representative().Bytes()[:]))
+			// S: the private key is the first half of SHA-512(random draw) and the two pad bits come
+			// from the truncated-off half (digest byte 63), not from anything that is part of the key
+			if tr.pos >= 32 {
+				dg := sha512.Sum512(tape[tr.pos-32 : tr.pos])
+				if !bytes.Equal(dg[:32], kp.Private().Bytes()[:]) || kp.Representative().Bytes()[31]&0xc0 != dg[63]&0xc0 {
+					r.Violate("newkeypair-tweak-not-from-truncated-digest", "impl-oracle",
+						fmt.Sprintf("NewKeypair(true): draw %x, SHA-512 = %x; private key %x, representative byte 31 = %#x (expected top bits %#x)",
+							tape[tr.pos-32:tr.pos], dg, kp.Private().Bytes()[:], kp.Representative().Bytes()[31], dg[63]&0xc0), c)
+				}
+			}
+			cs.add(cosetOf(kp.Representative().Bytes()[:]), true)
+			cs.preimage("newkeypair", kp.Public().Bytes()[:], kp.Representative().Bytes()[:])
 		}
 		want = fmt.Sprintf("%s %s %s %d", vlib.Hex(kp.Private().Bytes()[:]), vlib.Hex(kp.Public().Bytes()[:]), rs, tr.pos)
 	}
@@ -452,7 +497,7 @@ func main() {
 		drivers[i] = r.Driver("prim2")
 		defer drivers[i].Close()
 	}
-	cs := &cosets{seen: map[string]int{}}
+	cs := &cosets{seen: map[string]int{}, pop: map[string]int{}, branch: map[string]int{}}
 
 	if r.ReplayIn != "" {
 		var c kcase
@@ -493,7 +538,9 @@ func runAll(r *vlib.Run, drivers []*vlib.Driver, cases []kcase, cs *cosets) {
 	wg.Wait()
 }
 
-// coverage: generated public keys fall in all eight cosets of the prime-order subgroup.
+// coverage: generated public keys fall in all eight cosets of the prime-order subgroup — and, for
+// uniformly random private keys, evenly (each count within 6 standard deviations of n/8; the chance
+// of a false alarm is below 2e-8 per run); both preimages of the inverse map are used (tweak bit 0).
 func coverage(r *vlib.Run, cs *cosets) {
 	names := map[string]string{}
 	total := 0
@@ -502,6 +549,8 @@ func coverage(r *vlib.Run, cs *cosets) {
 		total += n
 	}
 	r.Notes["cosets_seen"] = names
+	r.Notes["cosets_seen_uniform_keys"] = cs.pop
+	r.Notes["preimage_branch"] = cs.branch
 	distinct := 0
 	for k := range cs.seen {
 		if !strings.HasPrefix(k, "not-") {
@@ -512,5 +561,33 @@ func coverage(r *vlib.Run, cs *cosets) {
 		r.Violate("coset-not-covered", "impl-oracle",
 			fmt.Sprintf("%d generated keys fall in only %d of the 8 cosets of the prime-order subgroup: %v", total, distinct, names),
 			kcase{Kind: "coverage", Tag: "coverage"})
+	}
+	n := 0
+	for _, v := range cs.pop {
+		n += v
+	}
+	if n >= 800 {
+		mean := float64(n) / 8
+		dev := 6 * math.Sqrt(float64(n)*7/64)
+		for k, v := range cs.pop {
+			if math.Abs(float64(v)-mean) > dev {
+				r.Violate("coset-distribution-skewed", "impl-oracle",
+					fmt.Sprintf("of %d keys generated from uniformly random private keys %d fall in the coset of %s (expected %.0f ± %.0f): %v", n, v, k, mean, dev, cs.pop),
+					kcase{Kind: "coverage", Tag: "coverage"})
+				break
+			}
+		}
+	}
+	for _, pop := range []string{"keygen", "newkeypair"} {
+		a, b := cs.branch[pop+":w==u"], cs.branch[pop+":w!=u"]
+		m := a + b
+		if m >= 150 {
+			dev := 6 * math.Sqrt(float64(m)/4)
+			if math.Abs(float64(a)-float64(m)/2) > dev {
+				r.Violate("one-preimage-preferred", "impl-oracle",
+					fmt.Sprintf("%s: of %d representatives %d are the preimage with w = u and %d the one with w = −u−A (expected %d ± %.0f each): tweak bit 0 does not select evenly", pop, m, a, b, m/2, dev),
+					kcase{Kind: "coverage", Tag: "coverage"})
+			}
+		}
 	}
 }
